@@ -286,7 +286,10 @@ inline void run_sub(const Sub& sub, bool thorough) {
   long n = thorough ? sub.n_thorough : sub.n_quick;
   n = (long)std::ceil(n * env_scale()); if (n < 1) n = 1;
   int recorded = 0;
+  int shard_i = 0, shard_n = 1;
+  if (const char* sh = std::getenv("VERIF_SHARD")) std::sscanf(sh, "%d/%d", &shard_i, &shard_n);
   for (int inst = 0; inst < sub.instances; inst++) {
+    if (shard_n > 1 && inst % shard_n != shard_i) continue;
     rc::detail::TestParams params;
     params.seed = env_seed() * 1000003ull + fnv(sub.name) % 1000003ull + (uint64_t)inst * 7919ull;
     params.maxSuccess = (int)n;
